@@ -363,7 +363,7 @@ func main() {
 		os.Exit(2)
 	}
 	out := lib.NewOut(a.Out, "C07")
-	out.PerFile = 50 // database cases are large terms: evaluate them in parallel
+	out.PerFile = 12 // database cases are large terms: evaluate them in parallel
 	exe, err := os.Executable()
 	if err != nil {
 		exe = os.Args[0]
